@@ -359,6 +359,20 @@ func (ts *TermStore) Eq(a, b *Term) *Term {
 			return ts.Not(a)
 		}
 	}
+	if a.S.K == SString && (a.Op == OStrConcat || a.Op == OStrFromCode || b.Op == OStrConcat || b.Op == OStrFromCode || a.Op == OIte || b.Op == OIte) {
+		ua, oka := ts.units(a)
+		ub, okb := ts.units(b)
+		if oka && okb {
+			if len(ua) != len(ub) {
+				return ts.F
+			}
+			cs := make([]*Term, len(ua))
+			for i := range ua {
+				cs[i] = ts.Eq(ts.unitCode(ua[i]), ts.unitCode(ub[i]))
+			}
+			return ts.And(cs...)
+		}
+	}
 	// finite-domain lifting: equality of ite-trees over constants
 	if a.Op == OIte || b.Op == OIte {
 		na, nb := iteLeafCount(a, liftLimit), iteLeafCount(b, liftLimit)
@@ -702,9 +716,57 @@ func (ts *TermStore) StrConcat(as ...*Term) *Term {
 	return ts.mk(OStrConcat, StringSort, res...)
 }
 
+// units flattens a string term into single-character pieces (constant chars or
+// StrFromCode terms) when its length is known structurally.
+func (ts *TermStore) units(t *Term) ([]*Term, bool) {
+	switch {
+	case t.IsConst():
+		out := make([]*Term, len(t.Str))
+		for i := range out {
+			out[i] = ts.StrC(t.Str[i : i+1])
+		}
+		return out, true
+	case t.Op == OStrFromCode:
+		return []*Term{t}, true
+	case t.Op == OIte:
+		// an ite whose branches are both single characters is a single character
+		a, oka := ts.units(t.Args[1])
+		b, okb := ts.units(t.Args[2])
+		if oka && okb && len(a) == 1 && len(b) == 1 {
+			return []*Term{t}, true
+		}
+		return nil, false
+	case t.Op == OStrConcat:
+		var out []*Term
+		for _, a := range t.Args {
+			u, ok := ts.units(a)
+			if !ok {
+				return nil, false
+			}
+			out = append(out, u...)
+		}
+		return out, true
+	}
+	return nil, false
+}
+
+// unitCode returns the character code (64-bit) of a single-character piece.
+func (ts *TermStore) unitCode(u *Term) *Term {
+	if u.IsConst() {
+		return ts.Int(int64(u.Str[0]))
+	}
+	if u.Op == OIte {
+		return ts.Ite(u.Args[0], ts.unitCode(u.Args[1]), ts.unitCode(u.Args[2]))
+	}
+	return u.Args[0]
+}
+
 func (ts *TermStore) StrLen(a *Term) *Term {
 	if a.IsConst() {
 		return ts.Int(int64(len(a.Str)))
+	}
+	if u, ok := ts.units(a); ok {
+		return ts.Int(int64(len(u)))
 	}
 	if a.Op == OIte && iteLeafCount(a, liftLimit) <= liftLimit {
 		return ts.lift1(a, func(x *Term) *Term { return ts.StrLen(x) })
@@ -729,6 +791,21 @@ func (ts *TermStore) StrAt(a, i *Term) *Term {
 		}
 		return ts.StrC("")
 	}
+	if u, ok := ts.units(a); ok {
+		if i.IsConst() {
+			if i.BV < uint64(len(u)) {
+				return u[i.BV]
+			}
+			return ts.StrC("")
+		}
+		if len(u) <= 64 {
+			res := ts.StrC("")
+			for k := len(u) - 1; k >= 0; k-- {
+				res = ts.Ite(ts.Eq(i, ts.Int(int64(k))), u[k], res)
+			}
+			return res
+		}
+	}
 	return ts.mk(OStrAt, StringSort, a, i)
 }
 
@@ -743,6 +820,19 @@ func (ts *TermStore) StrSubstr(a, off, n *Term) *Term {
 			e = int64(len(a.Str))
 		}
 		return ts.StrC(a.Str[o:e])
+	}
+	if off.IsConst() && n.IsConst() {
+		if u, ok := ts.units(a); ok {
+			o, l := signed(off.BV, 64), signed(n.BV, 64)
+			if o < 0 || o > int64(len(u)) || l <= 0 {
+				return ts.StrC("")
+			}
+			e := o + l
+			if e > int64(len(u)) || e < o {
+				e = int64(len(u))
+			}
+			return ts.StrConcat(u[o:e]...)
+		}
 	}
 	return ts.mk(OStrSubstr, StringSort, a, off, n)
 }
@@ -804,6 +894,9 @@ func (ts *TermStore) StrToCode(a *Term) *Term {
 	}
 	if a.Op == OStrFromCode {
 		return a.Args[0]
+	}
+	if u, ok := ts.units(a); ok && len(u) == 1 {
+		return ts.unitCode(u[0])
 	}
 	if a.Op == OIte && iteLeafCount(a, liftLimit) <= liftLimit {
 		return ts.lift1(a, func(x *Term) *Term { return ts.StrToCode(x) })
